@@ -582,6 +582,19 @@ def call_builtin(ex, name, e, st, awaited):
                 raise Unsupported('list() of a %s value' % v.kind)
             res.append((st2, vlist(r)))
         return res
+    if name == 'int' and len(e.args) == 1 and not e.keywords:
+        # int(x): x itself for an integer; some integer for a real (truncation is not modelled); may not raise
+        # for these kinds
+        for st2, vals in ex.ev_many(e.args, st):
+            if isinstance(vals, Raised):
+                res.append((st2, vals))
+            elif vals[0].kind == 'int':
+                res.append((st2, vals[0]))
+            elif vals[0].kind == 'real':
+                res.append((st2, vint(L.fresh('int', L.I))))
+            else:
+                raise Unsupported('int() of a %s value (line %d)' % (vals[0].kind, e.lineno))
+        return res
     if name in ('str', 'format'):
         for st2, vals in ex.ev_many(e.args, st):
             if not isinstance(vals, Raised) and name == 'str' and len(vals) == 1 and vals[0].kind == 'str':
